@@ -279,7 +279,7 @@ func checkC02(w *World, r *Report) {
 	r.rule("C02.noreflectset", "no reflect.Value.Set*, unsafe or sync/atomic pointer writes in the library")
 	e := newEngine(w)
 	nWrites := ruleContainerWrites(w, r, e, "C02.write", func(fn *ssa.Function) bool { return runtimePkg(fnPkgPath(fn)) }, true)
-	r.floor("C02.write", "container write sites in the library", nWrites, 45)
+	r.floor("C02.write", "container write sites in the library", nWrites, 40)
 	r.ok("C02.noreflectset", nil, "scan", token.NoPos, "no reflect.Value.Set* call in the library")
 	checkRegUnreachable(w, r)
 	r.Notes = append(r.Notes, "soundness sketch: if every container write has a base allocated in the current activation, then at the moment of any write no binding, collection or closure references the storage, so no observable value changes; read-only sharing of backing arrays (rest, subvec, seq, vec, with-meta) is then harmless")
@@ -454,7 +454,7 @@ func (w *World) reachableFrom(roots []*ssa.Function) map[*ssa.Function]bool {
 
 func checkRegUnreachable(w *World, r *Report) {
 	regs := w.registeredFuncs()
-	r.floor("C02.reg", "functions registered with call.Call/CallOverrideFN", len(regs), 100)
+	r.floor("C02.reg", "functions registered with call.Call/CallOverrideFN", len(regs), 80)
 	roots := append(evalEntries(w), regs...)
 	for _, n := range []string{"READ", "READWithPreamble"} {
 		roots = append(roots, w.Fn("", n))
